@@ -356,8 +356,44 @@ def dtype_grid_case(ctx: Ctx, stream: str, i: int) -> None:
     ctx.case(f'dtype-grid:{cfg}', True, sample=cfg)
 
 
+def twins_case(ctx: Ctx, stream: str, i: int) -> None:
+    """two operators built one after the other IN THE SAME PROCESS that agree in class, static fields and the shapes and
+    dtypes of their arrays but differ in array VALUES (a mask selecting another number of elements, an index array reaching
+    other rows) or in weak typing: each declares its own structure — nothing learnt about one may be reused for the other"""
+    from furax._base.diagonal import BroadcastDiagonalOperator
+    from furax._base.indices import IndexOperator
+    from furax._base.linear import PackOperator
+    rng = ctx.rng(stream, i)
+    n = rng.choice([4, 5, 6])
+    s = gen.S(n)
+    which = ['pack', 'index-mask', 'weak-values', 'pack'][i % 4]
+    if which == 'pack':
+        k1, k2 = rng.sample(range(1, n), 2)
+        m1 = np.zeros(n, bool); m1[:k1] = True
+        m2 = np.zeros(n, bool); m2[-k2:] = True
+        ops = [PackOperator(jnp.asarray(m1), s), PackOperator(jnp.asarray(m2), s)]
+    elif which == 'index-mask':
+        k1, k2 = rng.sample(range(1, n), 2)
+        m1 = np.zeros(n, bool); m1[:k1] = True
+        m2 = np.zeros(n, bool); m2[:k2] = True
+        ops = [IndexOperator(jnp.asarray(m), in_structure=s, out_structure=gen.S(int(m.sum()))) for m in (m1, m2)]
+    else:
+        s16 = gen.S(n, dtype=jnp.float16)
+        v32 = jnp.asarray(np.arange(1, 2 * n + 1, dtype=np.float32).reshape(2, n))
+        vweak = jnp.full((2, n), 2.0)                # the dtype of the data decides: weakly typed values do not widen
+        ops = [BroadcastDiagonalOperator(v32, axis_destination=-1, in_structure=s16),
+               BroadcastDiagonalOperator(vweak.astype(jnp.float16), axis_destination=-1, in_structure=s16)]
+    if rng.random() < 0.5:
+        ops = ops[::-1]
+    for k, op in enumerate(ops):
+        check(ctx, stream, i, op, f'twins:{which}:{k}')
+
+
 def run(ctx: Ctx) -> None:
     q = ctx.tier == 'quick'
+    for i in range(24 if q else 240):
+        if ctx.want('twins', i):
+            twins_case(ctx, 'twins', i)
     for i in range(6 * 6 * 8 if q else 6 * 6 * 8 * 2):
         if ctx.want('dtype-grid', i):
             dtype_grid_case(ctx, 'dtype-grid', i)
